@@ -188,6 +188,12 @@ class CompareFamily(Family):
             [P(lay_.PLAIN, lay_.TSINT, 4), P(lay_.FIXED, lay_.TUINT, 2), P(lay_.PLAIN, lay_.TU8, 1)],
             [P(lay_.PLAIN, lay_.TBLOB, 1), P(lay_.VARYING, lay_.TU8, 1), P(lay_.PLAIN, lay_.TBYTE, 1)],  # count outside the run
             [P(lay_.FIXED, lay_.TTRK, 4), P(lay_.PLAIN, lay_.TU8, 1)],
+            # floating point: not integral, never on a memcmp path; +0 == -0, sign-magnitude order
+            [P(lay_.PLAIN, lay_.TFLT, 4)],
+            [P(lay_.FIXED, lay_.TFLT, 4), P(lay_.PLAIN, lay_.TFLT, 4)],
+            [P(lay_.PLAIN, lay_.TUINT, 8, 8), P(lay_.VARYING, lay_.TFLT, 8), P(lay_.PLAIN, lay_.TFLT, 8)],
+            [P(lay_.PLAIN, lay_.TU8, 1), P(lay_.PLAIN, lay_.TFLT, 4, 4), P(lay_.PLAIN, lay_.TUINT, 4)],
+            [P(lay_.PLAIN, lay_.TFLT, 8), P(lay_.FIXED, lay_.TFLT, 4)],
             # memcmp-able lists with a VaryingSize field: no padding inside an element, gaps between elements
             [P(lay_.PLAIN, lay_.TUINT, 8, 8), P(lay_.VARYING, lay_.TUINT, 4)],
             [P(lay_.PLAIN, lay_.TUINT, 2, 2), P(lay_.VARYING, lay_.TU8, 1)],
